@@ -89,15 +89,42 @@ pub fn encode_into<W: Write + Seek>(
     total: Option<u64>,
     extra: &[i32],
 ) -> Result<(), EncErr> {
+    encode_ext(w, pcm, opts, front, chunks, total, extra, 0)
+}
+
+/// Like `encode_into`; `partial_bytes` appends that many bytes of a further, incomplete sample
+/// (byte front-ends only).
+#[allow(clippy::too_many_arguments)]
+pub fn encode_ext<W: Write + Seek>(
+    w: W,
+    pcm: &Pcm,
+    opts: &EncOpts,
+    front: Front,
+    chunks: &[usize],
+    total: Option<u64>,
+    extra: &[i32],
+    partial_bytes: usize,
+) -> Result<(), EncErr> {
     let o = opts.to_options().map_err(EncErr::Options)?;
     let bps = pcm.bps as u32;
     let mut ci = 0usize;
+    let mut zeros = 0usize;
+    // call sizes are taken from `chunks` cyclically; after 8 consecutive empty calls the rest is
+    // written at once (an all-zero chunk list would otherwise never make progress)
     let mut next_chunk = |rest: usize| -> usize {
         if chunks.is_empty() {
             rest
         } else {
             let c = chunks[ci % chunks.len()];
             ci += 1;
+            if c == 0 {
+                zeros += 1;
+                if zeros > 8 {
+                    return rest;
+                }
+            } else {
+                zeros = 0;
+            }
             c.min(rest)
         }
     };
@@ -109,19 +136,15 @@ pub fn encode_into<W: Write + Seek>(
             // trailing partial PCM frame: whole extra samples, possibly plus a partial sample
             let xb = crate::pcm::samples_to_bytes(extra, bytes, be);
             data.extend_from_slice(&xb);
+            data.extend(std::iter::repeat_n(0xABu8, partial_bytes.min(bytes.saturating_sub(1))));
             macro_rules! run {
                 ($wr:expr) => {{
                     let mut wr = NoDrop::new($wr.map_err(|e| EncErr::New(e.to_string()))?);
                     let mut off = 0;
-                    let mut guard = 0;
                     while off < data.len() {
                         let n = next_chunk(data.len() - off);
-                        guard += 1;
                         if n == 0 {
                             wr.write_all(&[]).map_err(|e| EncErr::Write(e.to_string()))?;
-                            if guard > data.len() * 2 + 16 {
-                                break;
-                            }
                             continue;
                         }
                         wr.write_all(&data[off..off + n]).map_err(|e| EncErr::Write(e.to_string()))?;
@@ -143,13 +166,8 @@ pub fn encode_into<W: Write + Seek>(
                 FlacSampleWriter::new(w, o, pcm.rate, bps, pcm.channels, total).map_err(|e| EncErr::New(e.to_string()))?,
             );
             let mut off = 0;
-            let mut guard = 0;
             while off < data.len() {
                 let n = next_chunk(data.len() - off);
-                guard += 1;
-                if n == 0 && guard > data.len() * 2 + 16 {
-                    break;
-                }
                 wr.write(&data[off..off + n]).map_err(|e| EncErr::Write(e.to_string()))?;
                 off += n;
             }
@@ -161,13 +179,8 @@ pub fn encode_into<W: Write + Seek>(
             );
             let frames = pcm.frames();
             let mut off = 0;
-            let mut guard = 0;
             while off < frames {
                 let n = next_chunk(frames - off);
-                guard += 1;
-                if n == 0 && guard > frames * 2 + 16 {
-                    break;
-                }
                 let sl: Vec<&[i32]> = pcm.data.iter().map(|c| &c[off..off + n]).collect();
                 wr.write(&sl).map_err(|e| EncErr::Write(e.to_string()))?;
                 off += n;
